@@ -77,6 +77,14 @@ var ResetLibrary = func() {}
 // Sim runs root under the simulator with the next schedule of the case.
 func (c *Ctx) Sim(tweak func(*simrt.Config), root func()) *simrt.Result {
 	cfg := simrt.Config{Seed: simrt.Mix(c.Seed, uint64(1000+c.nsim)), Strategy: -1, KeepEvents: c.keep}
+	// race-directed stalls in half of the runs (derived from the case seed so
+	// that a replay makes the same draws)
+	switch simrt.Mix(c.Seed, uint64(2000+c.nsim)) % 4 {
+	case 2:
+		cfg.AccessStall = 0.03
+	case 3:
+		cfg.AccessStall = 0.15
+	}
 	if tweak != nil {
 		tweak(&cfg)
 	}
